@@ -9,7 +9,7 @@
    (recording sampler, experimental MH with its cached current_target_logd, Direct, the NUTS branch).
    Part 3: finite-state sweep kernels over Qc (for the invariance theorem). *)
 From CV Require Import Base.Tac Base.Cmp.
-From Coq Require Import QArith Qround Qcanon.
+From Coq Require Import QArith Qround Qabs Qcanon.
 Local Open Scope Q_scope.
 
 (* dict[name] = v  for a dict keyed by the position of the name in par_names *)
@@ -33,13 +33,17 @@ Definition mapi {A B} (f : nat -> A -> B) (l : list A) : list B := mapi_from f 0
 (* ------------------------------------------------------------------------------------------ *)
 (* Part 1: generic wiring                                                                      *)
 (* ------------------------------------------------------------------------------------------ *)
+(* the joint conditioned on all the others' CURRENT values, as a function of block i's value: what
+   JointDistribution.__call__ on the others must return (the C01 one-step law).  The entry of block i itself
+   is overwritten: it is not used. *)
+Definition cond {V L : Type} (joint : list V -> L) (cur : list V) (i : nat) : V -> L := fun v => joint (upd cur i v).
+
 Section Wiring.
 Context {V L St R : Type}.
-Variable joint : list V -> L.            (* joint log-density at a full assignment (par_names order) *)
-
-(* JointDistribution.__call__ on the others: the conditional of block i given the other CURRENT values,
-   as a function of block i's value.  (The entry of block i itself is overwritten: it is not used.) *)
-Definition cond (cur : list V) (i : nat) : V -> L := fun v => joint (upd cur i v).
+(* the conditioning operation the sampler is built on: condf cur i = log-density of the object self.target conditioned on the others
+   returns for block i.  Its relation to the joint (condf = cond joint: C01) is a HYPOTHESIS of the theorems that
+   need it, not part of the wiring. *)
+Variable condf : list V -> nat -> V -> L.
 
 Variable point : St -> V.                              (* sampler.current_point *)
 Variable reinit : nat -> (V -> L) -> St -> St.          (* set target; get_state/reinitialize/set_state/set_history; _pre_* *)
@@ -68,7 +72,7 @@ Definition block_update (rs : nat -> nat -> R) (a : gst * list ev) (i : nat) : g
   | None => a
   | Some s =>
       let cur := g_cur (fst a) in
-      let t := cond cur i in
+      let t := condf cur i in
       let r := steps i t cur (nst i) 0 (rs i) (reinit i t s) in
       (mkG (upd cur i (point (fst r))) (upd (g_ss (fst a)) i (fst r)), snd a ++ snd r)
   end.
@@ -119,13 +123,13 @@ Arguments mkRun {V L St}. Arguments r_st {V L St}. Arguments r_stored {V L St}. 
 (* ---------------- legacy cuqi.sampler.Gibbs ---------------- *)
 Section Legacy.
 Context {V L R : Type}.
-Variable joint : list V -> L.
+Variable condf : list V -> nat -> V -> L.
 (* sampler = self.samplers[par](self.target conditioned on the others); new = sampler.step(current) : a fresh, stateless
    object per update -- nothing is carried from one conditional to the next *)
 Variable ltrans : nat -> (V -> L) -> V -> R -> V.
 
 Definition lsweep (rs : nat -> nat -> R) (cur : list V) : list V * list (@ev V L V) :=
-  let r := sweep joint (fun v : V => v) (fun _ _ s => s) ltrans (fun _ => 1%nat) rs (mkG cur cur) in
+  let r := sweep condf (fun v : V => v) (fun _ _ s => s) ltrans (fun _ => 1%nat) rs (mkG cur cur) in
   (g_cur (fst r), snd r).
 
 Fixpoint lsweeps (rnd : nat -> nat -> nat -> R) (n t0 : nat) (cur : list V) : list (list V) * list (@ev V L V) :=
@@ -144,29 +148,31 @@ Inductive lres := LOk (st : lst) (lg : list (@ev V L V)) | LIndexError | LValueE
 Definition last_col (ss : list (list V)) : option (list V) :=
   match rev ss with [] => None | c :: _ => Some c end.
 
-(* Gibbs._get_initial_points: last stored column of `samples`, else of `samples_warmup`, else the initial points *)
-Definition l_initial (st : lst) (init0 : list V) : option (list V) :=
-  match l_samples st with
-  | Some ss => last_col ss
-  | None => match l_warm st with Some ws => last_col ws | None => Some init0 end
+(* Gibbs._get_initial_points (after repo commit 2dba9ab): last stored column of `samples` if it has one, else last
+   column of `samples_warmup` if it has one, else the initial points *)
+Definition l_initial (st : lst) (init0 : list V) : list V :=
+  match (match l_samples st with Some ss => last_col ss | None => None end) with
+  | Some c => c
+  | None => match (match l_warm st with Some ws => last_col ws | None => None end) with
+            | Some c => c
+            | None => init0
+            end
   end.
 
 Definition last_or (d : list V) (l : list (list V)) : list V := match rev l with [] => d | c :: _ => c end.
 
-(* Gibbs.sample(Ns, Nb) *)
+(* Gibbs.sample(Ns, Nb).  (LIndexError is kept only as an observable outcome: before commit 2dba9ab a call after a
+   warm-up-only call raised it; the current code never does.) *)
 Definition lsample (rnd : nat -> nat -> nat -> R) (init0 : list V) (ns nb t0 : nat) (st : lst) : lres :=
-  match l_initial st init0 with
-  | None => LIndexError                                  (* samples[...][:, -1] of an array without columns *)
-  | Some cur0 =>
-      match l_warm st, nb with
-      | Some _, S _ => LValueError                       (* "Sampler already has run warmup phase" *)
-      | _, _ =>
-          let w := lsweeps rnd nb t0 cur0 in
-          let cur1 := last_or cur0 (fst w) in
-          let s := lsweeps rnd ns (t0 + nb) cur1 in
-          let old := match l_samples st with Some ss => ss | None => [] end in
-          LOk (mkL (Some (old ++ fst s)) (Some (fst w))) (snd w ++ snd s)
-      end
+  let cur0 := l_initial st init0 in
+  match l_warm st, nb with
+  | Some _, S _ => LValueError                       (* "Sampler already has run warmup phase" *)
+  | _, _ =>
+      let w := lsweeps rnd nb t0 cur0 in
+      let cur1 := last_or cur0 (fst w) in
+      let s := lsweeps rnd ns (t0 + nb) cur1 in
+      let old := match l_samples st with Some ss => ss | None => [] end in
+      LOk (mkL (Some (old ++ fst s)) (Some (fst w))) (snd w ++ snd s)
   end.
 End Legacy.
 Arguments mkL {V}. Arguments l_samples {V}. Arguments l_warm {V}.
@@ -262,10 +268,10 @@ Definition script (sc : list (list (list rnd))) (t i j : nat) : rnd := nth j (nt
 (* num_sampling_steps: None / a missing key defaults to 1 *)
 Definition nsteps (l : list (option nat)) (i : nat) : nat := match nth i l None with Some n => n | None => 1%nat end.
 
-Definition hybrid_run (fresh : bool) (fs : list factor) (kinds : list kind) (inits : list vec) (scales : list Q)
+Definition hybrid_run (fresh : bool) (jt : list vec -> Q) (kinds : list kind) (inits : list vec) (scales : list Q)
     (ns : list (option nat)) (sc : list (list (list rnd))) (ops : list op) : @run vec Q sst :=
-  run_ops (qjoint fs) s_pt (creinit fresh) ctrans ctune (nsteps ns) (script sc) ops 0
-          (mkRun (hybrid_init (qjoint fs) kinds inits scales) [] []).
+  run_ops (cond jt) s_pt (creinit fresh) ctrans ctune (nsteps ns) (script sc) ops 0
+          (mkRun (hybrid_init jt kinds inits scales) [] []).
 
 (* max(int(tune_freq * Nb), 1) *)
 Definition tune_interval (freq : Q) (nb : nat) : nat :=
@@ -309,10 +315,10 @@ Definition sst_ok (s : sst) (o : osst) : bool :=
   && list_eqb nn_eqb (s_tunes s) (os_tunes o)
   && ql_eqb (s_init s) (os_init o).
 
-Definition check_hybrid (fresh : bool) (fs : list factor) (kinds : list kind) (inits : list vec) (scales : list Q)
+Definition check_hybrid (fresh : bool) (jt : list vec -> Q) (kinds : list kind) (inits : list vec) (scales : list Q)
     (ns : list (option nat)) (sc : list (list (list rnd))) (ops : list op) (probes : list (list vec))
     (olog : list oev) (ocur : list vec) (ostored : list (list vec)) (oss : list osst) : bool :=
-  let x := hybrid_run fresh fs kinds inits scales ns sc ops in
+  let x := hybrid_run fresh jt kinds inits scales ns sc ops in
   evs_ok s_pt s_cache probes (r_log x) olog
   && qll_eqb (g_cur (r_st x)) ocur
   && list_eqb qll_eqb (r_stored x) ostored
@@ -326,6 +332,49 @@ Definition cache_ok_ev (e : @ev vec Q sst) : bool :=
   | _ => true
   end.
 Definition cache_consistent (lg : list (@ev vec Q sst)) : bool := forallb cache_ok_ev lg.
+
+(* ---- real CUQIpy families: Gaussian-type joints, compared through probe combinations ----
+   surrogate joint = the part of the joint log-density that is polynomial in the block values:
+     sum over factors  -(w/2) * sum_r (c_r - sum_b <co_{r,b}, x_b>)^2   (w a constant or the first entry of a block:
+     a precision hyper-parameter)   -  sum of  beta * (x_b)_0  (rates of Gamma priors).
+   The omitted terms (k log d of Gamma / Gaussian normalisations) are constant in every other block and cancel in the
+   probe combinations used for the hyper-parameter blocks themselves (probes p, 2p, 4p with weights -1, 2, -1). *)
+Fixpoint qdot (a b : vec) : Q :=
+  match a, b with x :: a', y :: b' => x * y + qdot a' b' | _, _ => 0 end.
+Record grow := mkRow { gr_c : Q; gr_co : list vec }.
+Record gfac := mkGF { g_w : nat + Q; g_rows : list grow }.
+
+Fixpoint row_dot (co : list vec) (a : list vec) : Q :=
+  match co, a with c :: co', x :: a' => qdot c x + row_dot co' a' | _, _ => 0 end.
+Definition gfac_val (a : list vec) (f : gfac) : Q :=
+  let w := match g_w f with inl b => match nth_error a b with Some (d :: _) => d | _ => 0 end | inr c => c end in
+  - (w / 2) * fold_left (fun acc r => let e := gr_c r - row_dot (gr_co r) a in acc + e * e) (g_rows f) 0.
+Definition gjoint (gfs : list gfac) (lins : list (nat * Q)) (a : list vec) : Q :=
+  fold_left (fun acc f => acc + gfac_val a f) gfs 0
+  - fold_left (fun acc bl => acc + snd bl * match nth_error a (fst bl) with Some (d :: _) => d | _ => 0 end) lins 0.
+
+Fixpoint combo (c : list Z) (v : list Q) : Q :=
+  match c, v with k :: c', x :: v' => inject_Z k * x + combo c' v' | _, _ => 0 end.
+Fixpoint combo_abs (c : list Z) (v : list Q) : Q :=
+  match c, v with k :: c', x :: v' => Qabs (inject_Z k * x) + combo_abs c' v' | _, _ => 0 end.
+
+(* one step() call of an opaque (not modelled) kernel: block, current_samples and start point EXACTLY, the target through
+   integer combinations of its values at the probe points, within tol relative to the size of the terms combined *)
+Definition ev_ok_tol (tol : Q) (probes : list (list vec)) (combos : list (list (list Z))) (e : @ev vec Q sst) (o : oev) : bool :=
+  Nat.eqb (e_blk e) (o_blk o) && qll_eqb (e_cur e) (o_cur o) && ql_eqb (s_pt (e_s e)) (o_pt o)
+  && let tv := map (e_tgt e) (nth (e_blk e) probes []) in
+     forallb (fun c => Qle_bool (Qabs (combo c (o_probes o) - combo c tv))
+                                (tol * (1 + combo_abs c (o_probes o) + combo_abs c tv)))
+             (nth (e_blk e) combos []).
+
+Definition check_hybrid_tol (jt : list vec -> Q) (inits : list vec) (ns : list (option nat)) (sc : list (list (list rnd)))
+    (ops : list op) (probes : list (list vec)) (combos : list (list (list Z))) (tol : Q)
+    (olog : list oev) (ocur : list vec) (ostored : list (list vec)) (opts : list vec) : bool :=
+  let x := hybrid_run true jt (map (fun _ => KRec) inits) inits (map (fun _ => 1) inits) ns sc ops in
+  all2 (ev_ok_tol tol probes combos) (r_log x) olog
+  && qll_eqb (g_cur (r_st x)) ocur
+  && list_eqb qll_eqb (r_stored x) ostored
+  && all2 (fun s p => ql_eqb (s_pt s) p) (g_ss (r_st x)) opts.
 
 (* ---- legacy ---- *)
 Inductive lkind := LRec | LMH (scale : Q).
@@ -346,18 +395,18 @@ Inductive lobs := LObs (samples warm : list (list vec)) | LObsIndexError | LObsV
 
 (* a sequence of Gibbs.sample calls; after each call the implementation's `samples`/`samples_warmup` (as lists of
    sweeps) or the error it raised; the whole event log at the end *)
-Fixpoint legacy_calls (fs : list factor) (ks : list lkind) (init0 : list vec) (sc : list (list (list rnd)))
+Fixpoint legacy_calls (jt : list vec -> Q) (ks : list lkind) (init0 : list vec) (sc : list (list (list rnd)))
     (ops : list lop) (t0 : nat) (st : @lst vec) : list lobs * list (@ev vec Q vec) :=
   match ops with
   | [] => ([], [])
   | LSample ns nb :: r =>
-      match lsample (qjoint fs) (cltrans ks) (script sc) init0 ns nb t0 st with
+      match lsample (cond jt) (cltrans ks) (script sc) init0 ns nb t0 st with
       | LOk st' lg =>
-          let r' := legacy_calls fs ks init0 sc r (t0 + nb + ns) st' in
+          let r' := legacy_calls jt ks init0 sc r (t0 + nb + ns) st' in
           (LObs (match l_samples st' with Some s => s | None => [] end)
                 (match l_warm st' with Some w => w | None => [] end) :: fst r', lg ++ snd r')
-      | LIndexError => let r' := legacy_calls fs ks init0 sc r t0 st in (LObsIndexError :: fst r', snd r')
-      | LValueError => let r' := legacy_calls fs ks init0 sc r t0 st in (LObsValueError :: fst r', snd r')
+      | LIndexError => let r' := legacy_calls jt ks init0 sc r t0 st in (LObsIndexError :: fst r', snd r')
+      | LValueError => let r' := legacy_calls jt ks init0 sc r t0 st in (LObsValueError :: fst r', snd r')
       end
   end.
 
@@ -369,9 +418,9 @@ Definition lobs_eqb (a b : lobs) : bool :=
   | _, _ => false
   end.
 
-Definition check_legacy (fs : list factor) (ks : list lkind) (init0 : list vec) (sc : list (list (list rnd)))
+Definition check_legacy (jt : list vec -> Q) (ks : list lkind) (init0 : list vec) (sc : list (list (list rnd)))
     (ops : list lop) (probes : list (list vec)) (oobs : list lobs) (olog : list oev) : bool :=
-  let r := legacy_calls fs ks init0 sc ops 0 (mkL None None) in
+  let r := legacy_calls jt ks init0 sc ops 0 (mkL None None) in
   list_eqb lobs_eqb (fst r) oobs && evs_ok (fun v : vec => v) (fun _ => 0) probes (snd r) olog.
 
 (* ------------------------------------------------------------------------------------------ *)
